@@ -168,6 +168,10 @@ def defects(rows):
             yield "fixed field without length", put(i, 4, ""), i
             yield "fixed field with a length range", put(i, 4, "1...3"), i
             yield "fixed field with length 0", put(i, 4, "0"), i
+            yield "fixed field with two lengths", put(i, 4, "5, 7"), i
+            yield "fixed field with two lengths, the larger first", put(i, 4, "7,5"), i
+            yield "fixed field with a length and a length range", put(i, 4, "5, 7...9"), i
+            yield "fixed field with a length and an open length range", put(i, 4, "2, 4..."), i
     if len(fi) >= 2:
         yield "duplicate field name", put(fi[1], 1, rows[fi[0]][1]), fi[1]
         dup = put(fi[1], 1, rows[fi[0]][1])
@@ -714,6 +718,96 @@ def unit_cid_init():
                 "assumptions": ["Cid.read / rowio.auto_rows are used through their verified contracts; _create_name_to_class_map is abstract here (bounded: C20.protocol resolves real plug-in classes)"]}
     def make(ctx): return [mk(False), mk(True)]
     return ProofUnit("interface.Cid.__init__", "Cid.__init__: empty definition, class maps from the two base classes, optional read from a path", ["C09", "C08", "C17", "C20", "C10"], make, None)
+
+
+class ClassMapOracle(Oracle):
+    """native twin of the contract of Cid._create_name_to_class_map (and bounded stand-in for Cid._all_subclasses): real class trees built with type()"""
+    quick_cases = 40000; thorough_cases = 400000
+    bound = "class trees of 0-4 classes (each derived from the base or from an earlier class, so up to 4 levels deep), __name__ over {A, B, x.A}, __module__ over {m1, m2}; plus diamonds (two parents) of 3-4 classes"
+    def cases(self, ctx):
+        names = ["A", "B", "x.A"]; mods = ["m1", "m2"]
+        for n in range(0, 5):
+            for parents in itertools.product(*[range(-1, i) for i in range(n)]):
+                for nm in itertools.product(names, repeat=n):
+                    for md in itertools.product(mods if n <= 3 else ["m1"], repeat=n):
+                        yield ([(p,) for p in parents], nm, md)
+        for nm in itertools.product(names, repeat=4):
+            for md in itertools.product(mods, repeat=4):
+                yield ([(-1,), (-1,), (0, 1), (2,)], nm, md)
+                yield ([(-1,), (0,), (0,), (1, 2)], nm, md)
+    def check(self, c):
+        from cutplace import interface, errors
+        parents, nm, md = c
+        base = type("Base", (), {"__module__": "m0"}); made = []
+        for ps, n_, m_ in zip(parents, nm, md):
+            made.append(type(n_, tuple(base if p < 0 else made[p] for p in ps), {"__module__": m_}))
+        plain = lambda k: k.__name__.split(".")[-1]; info = lambda k: (k.__module__, k.__name__)
+        clash = any(plain(a) == plain(b) and info(a) != info(b) for a in made for b in made if a is not b)
+        try: got = interface.Cid._create_name_to_class_map(base)
+        except errors.CutplaceError as e:
+            return None if clash else {"expected": "a map (no two different classes share a plain name)", "observed": "CutplaceError: %s" % e}
+        except Exception as e: return {"expected": "a map or CutplaceError", "observed": repr(e)}
+        if clash: return {"expected": "CutplaceError (two different classes share a plain name)", "observed": "map with keys %s" % sorted(got)}
+        if set(got) != {plain(k) for k in made}: return {"expected": "keys %s" % sorted({plain(k) for k in made}), "observed": "keys %s" % sorted(got)}
+        for k, v in got.items():
+            if not any(v is m for m in made) or plain(v) != k: return {"expected": "%r resolves to a subclass of the base named so" % k, "observed": repr(v)}
+            if sum(1 for m in made if plain(m) == k) == 1 and not any(v is m for m in made if plain(m) == k): return {"expected": "the only class named %r" % k, "observed": repr(v)}
+        return None
+    def describe(self, c): return {"parents": [list(p) for p in c[0]], "names": list(c[1]), "modules": list(c[2])}
+
+
+# =====================================================================================================================
+# Cid._create_name_to_class_map (C20, C09): which class a plain class name resolves to, for built-ins and plug-ins alike
+# =====================================================================================================================
+def unit_create_name_to_class_map():
+    CLS = Abs("Class")
+    def plain(ex, c): return ex.absfun_s("last_dotted_part", [z3.StringSort()], z3.StringSort())(ex.absfun_s("class_dunder_name", [sort_of(CLS)], z3.StringSort())(c))
+    def info(ex, c): return ex.absfun_s("class_info_text", [sort_of(CLS)], z3.StringSort())(c)
+    def setup(ex, st):
+        base = fresh(CLS, "base_class")[0]
+        classes, c = fresh(UFList(CLS), "subclasses"); st.pc.extend(c)
+        # _all_subclasses returns a set: its elements are pairwise different; pos is the (ghost) position of a class in the iteration order
+        pos = z3.Function("pos_in_subclasses", sort_of(CLS), z3.IntSort()); j = z3.Int("j!pos")
+        st.pc.append(z3.ForAll([j], z3.Implies(z3.And(0 <= j, j < classes.length), pos(classes.at(j)) == j), patterns=[classes.at(j)]))
+        st.frames[-1].env["base_class"] = base
+        st.ghost.update({"classes": classes, "pos": pos, "base": base, "asked": None})
+    def m_all_subclasses(ex, st, fn, args, kw):
+        st.ghost["asked"] = args[0]; yield st, st.ghost["classes"]
+    def absattr_name(ex, st, recv): return Sym(STR, ex.absfun_s("class_dunder_name", [sort_of(CLS)], z3.StringSort())(recv.z))
+    def m_split_last(ex, st, recv, args, kw): yield st, [Sym(STR, ex.absfun_s("last_dotted_part", [z3.StringSort()], z3.StringSort())(lift(recv).z))]
+    def m_class_info(ex, st, fn, args, kw): yield st, Sym(STR, info(ex, lift(args[0]).z))
+    def m_is_ci(ex, st, fn, args, kw): yield st, Sym(BOOL, ex.absfun_s("is_ci_pytest_class", [sort_of(CLS)], z3.BoolSort())(lift(args[0]).z))
+    def unique_name(ex, st, jz):
+        classes = st.ghost["classes"]; l = z3.Int("l!un")
+        return z3.ForAll([l], z3.Implies(z3.And(0 <= l, l < classes.length, l != jz), plain(ex, classes.at(l)) != plain(ex, classes.at(jz))))
+    def upto(ex, st, res, k):
+        """the map after the first k classes: (a) every one of them has its plain name registered, (b) every registered name maps to one of them that carries this plain name,
+        (c) a class whose plain name no other class shares is the one its name resolves to"""
+        kk = k if isinstance(k, z3.ExprRef) else lift(k).z; classes = st.ghost["classes"]; pos = st.ghost["pos"]
+        if isinstance(res, dict): return Sym(BOOL, z3.And(z3.BoolVal(len(res) == 0), kk == 0))
+        j = z3.Int("j!upto"); key = z3.String("key!upto")
+        a = z3.ForAll([j], z3.Implies(z3.And(0 <= j, j < kk), res.has(plain(ex, classes.at(j)))))
+        b = z3.ForAll([key], z3.Implies(res.has(key), z3.And(0 <= pos(res.val(key)), pos(res.val(key)) < kk, classes.at(pos(res.val(key))) == res.val(key), plain(ex, res.val(key)) == key)))
+        c = z3.ForAll([j], z3.Implies(z3.And(0 <= j, j < kk, unique_name(ex, st, j)), res.val(plain(ex, classes.at(j))) == classes.at(j)))
+        return Sym(BOOL, z3.And(a, b, c))
+    def names_clash(ex, st):
+        classes = st.ghost["classes"]; a, b = z3.Ints("a!clash b!clash")
+        return z3.Exists([a, b], z3.And(0 <= a, a < b, b < classes.length, plain(ex, classes.at(a)) == plain(ex, classes.at(b)), info(ex, classes.at(a)) != info(ex, classes.at(b))))
+    def make(ctx):
+        c = Contract("interface.Cid._create_name_to_class_map", setup,
+                returns=[Clause(lambda ex, st: upto(ex, st, st.ghost["__result__"], st.ghost["classes"].length),
+                                "every-subclass-is-registered-under-its-plain-class-name-every-entry-is-a-subclass-carrying-that-name-and-a-name-borne-by-one-class-only-resolves-to-that-class", props=["C20", "C09"]),
+                         Clause(lambda ex, st: Sym(BOOL, z3.BoolVal(st.ghost["asked"] is st.ghost["base"])), "the-classes-considered-are-all-subclasses-of-the-given-base-class", props=["C20"])],
+                raises={"CutplaceError": [Clause(lambda ex, st: Sym(BOOL, names_clash(ex, st)), "refused-only-when-two-different-classes-share-a-plain-name", props=["C20", "C09"])]},
+                loops={0: LoopSpec(invariants=["upto(result, _i0)"], havoc={"result": UFDictOf(STR, CLS), "qualified_class_name": STR, "plain_class_name": STR, "clashing_class": Opt(CLS),
+                                                                             "clashing_class_info": STR, "class_to_process_info": STR})},
+                expect=["return", "CutplaceError"], n_loops=1, modifies=[], raises_only_props=["C20", "C10"])
+        return {"contract": c, "callees": {"ref:Cid._all_subclasses": m_all_subclasses, "interface.Cid._all_subclasses": ModelContract(m_all_subclasses), "absattr:Class.__name__": absattr_name, "strmethod:split": m_split_last,
+                                           "ref:Cid._class_info": m_class_info, "ref:Cid._is_ci_pytest_class": m_is_ci,
+                                           "interface.Cid._class_info": ModelContract(m_class_info), "interface.Cid._is_ci_pytest_class": ModelContract(m_is_ci)}, "spec_functions": {"upto": upto},
+                "assumptions": ["Cid._all_subclasses(base) is used through an assumed contract: a set (pairwise different classes, any iteration order) - that it holds exactly the transitive subclasses is reflection "
+                                "(`__subclasses__`), bounded stand-in: C20.protocol / C20.late-classes resolve real plug-in classes; class.__name__, _class_info and _is_ci_pytest_class are uninterpreted functions of the class"]}
+    return ProofUnit("interface.Cid._create_name_to_class_map", "_create_name_to_class_map: every subclass registered under its plain name, unique names resolve to their class, clashes refused", ["C20", "C09"], make, ClassMapOracle())
 
 
 def unit_fnl_follows_cid():
